@@ -53,9 +53,11 @@ def run(ctx):
             res = ctx.correspondence(fam, hbin, [fam], drv, [fam])
             ctx.judge(res, theorem_hint="Poly.Props.C30.* (model Poly.Model.LCTm no longer matches the %s handlers)" % fam)
     ctx.cov["not_covered"] = [
-        "cosmos ProofRuntime: the ICS-23 commitment ops (ics23:iavl, ics23:simple; proof.go CommitmentOp) are registered but "
-        "not driven - deposits are driven with IAVL value/absence ops + the multistore op only (the proof runtime is a "
-        "parameter of the theorems)",
+        "cosmos ProofRuntime ICS-23 ops: driven through the real CommitmentOp with existence and non-existence proofs for "
+        "ics23.IavlSpec (op ics23:iavl, store level) and ics23.TendermintSpec (op ics23:simple, store level and multistore level), "
+        "built by hand with the confio/ics23 types (no ics23 proof generator for IAVL is available offline: iavl v0.14.0 has "
+        "none) and checked with ics23.VerifyMembership / VerifyNonMembership; NOT driven: batch / compressed ics23 proofs, and "
+        "mixing an ics23 store op with the legacy MultiStoreProofOp",
         "validator key types sr25519 and multisig (registered in the cosmos codec) are not driven: pools are ed25519 + secp256k1 "
         "(cosmos, okex) and heimdall secp256k1",
         "okex: a validator with an ethermint ethsecp256k1 key (registered in the okex codec) makes ValidatorSet.Hash() panic "
